@@ -30,6 +30,18 @@ def run(tier, seed):
                seconds=round(time.time() - t, 2), bounded='all labelled graphs with <= %d nodes (%d graphs)' % (nmax, n),
                witness=bad, replayed=True if bad else None, engine='E5-bounded',
                detail='' if bad is None else str(bad)))
+    from ..replay import sim_native, aux_native
+    rep.add(util.native_ob('native:degree-helpers-incl-self-loops-and-multigraphs', 'EoN/analytic.py:get_Pk / PGF helpers / estimate_R0', sim_native.c20_native,
+                           '5 graphs incl. self-loops and a MultiGraph: Pk vs the degree sequence, moments, estimate_R0'))
+    class _O:            # the exhaustive native search for subsample / get_time_shift as a bounded obligation
+        id = 'subsample'
+    def _sub():
+        r = aux_native.replayer(type('o', (), dict(id='subsample'))())
+        r2 = aux_native.replayer(type('o', (), dict(id='get_time_shift'))())
+        bad = r if r.get('failure_exhibited') else (r2 if r2.get('failure_exhibited') else None)
+        return (r.get('tried', 0) or 0), (dict(observed=str(bad.get('observed')), input=bad.get('input'), expected=bad.get('expected')) if bad else None)
+    rep.add(util.native_ob('native:subsample-and-time-shift-exhaustive', 'EoN/auxiliary.py:subsample / get_time_shift', _sub,
+                           'all non-decreasing times / report_times over {0,1,2} of length <= 3 (ties included), 1/2/3 series'))
     rep.level = 'other'
     rep.explanation = ('subsample (1/2/3 series, incl. the recursive calls against its own contract), get_time_shift, get_Pk and '
                        'estimate_R0 are verified for all inputs by VC generation from their real source + z3 (lists of any length, '
